@@ -241,8 +241,8 @@ def gen_spec(rng, cls):
         return {"input": distinct(ri(0, 10)), "length": 0 if edge else ri(1, 6)}
     if cls == "PMarkov":
         if rng.random() < 0.5:
-            return {"seq": [ri(1, 4) for _ in range(ri(0, 12))]}
-        keys = rng.sample(range(1, 7), ri(0, 5))
+            return {"seq": [ri(0, 4) for _ in range(ri(0, 12))]}       # 0 is a legal state (scale degree 0)
+        keys = rng.sample(range(0, 7), ri(0, 5))
         nodes = []
         for k in keys:
             succ = [rng.choice(keys + ([9] if rng.random() < 0.15 else [])) for _ in range(ri(0, 4) if rng.random() < 0.3 else ri(1, 4))]
@@ -859,6 +859,15 @@ def run_freq(run, n):
         if cls == "PSample":
             a["count"] = rng.randint(1, k)
         cases.append({"kind": "freq", "spec": {"cls": cls, "args": a}, "seed": rng.randrange(2 ** 31), "n": n, "first": True})
+    # the weights list the caller passed is edited in place half-way: the draws after the edit follow the NEW weights
+    for j in range(2):
+        k = rng.randint(3, 5)
+        vals = rng.sample(range(100), k)
+        w1 = [1] * k
+        w2 = [rng.choice([1, 2, 3, 5]) for _ in range(k)]
+        w2[j % k] = 0
+        cases.append({"kind": "freq", "spec": {"cls": "PChoice", "args": {"values": vals, "weights": w1}}, "weights2": w2,
+                      "seed": rng.randrange(2 ** 31), "n": 2 * (n // 2)})
     p = rfloat(rng)
     cases.append({"kind": "freq", "spec": {"cls": "PCoin", "args": {"p": float(p)}}, "seed": rng.randrange(2 ** 31), "n": n})
     vals = rng.sample(range(100), rng.randint(2, 6))
@@ -874,7 +883,9 @@ def run_freq(run, n):
         if c["spec"]["cls"] == "PCoin":
             exp = {json.dumps({"i": 1}): a["p"], json.dumps({"i": 0}): 1 - a["p"]}
         else:
-            w = a["weights"] or [1] * len(a["values"])
+            w = c.get("weights2") or a["weights"] or [1] * len(a["values"])
+            if c.get("weights2"):
+                run.dist("freq.weights-edited-in-place")
             tot = sum(w)
             exp = {json.dumps({"i": v}): x / tot for v, x in zip(a["values"], w)}
         run.cov["oracle_evaluations"] += N
